@@ -144,6 +144,15 @@ def apply(ex, st, c, fi, bound, node):
         gv = sub.one(st, gspec[g])
         gv = ex.narrow(st, gv) if isinstance(gv, V) else gv
         fv[g] = _coerce(gv, tag)
+    # ---- lemma instances the caller's contract names for this call site (locals visible; proved separately)
+    if caller is not None:
+        hs = getattr(caller, "call_hints", None) or {}
+        for h in (hs.get(key) or hs.get(short) or []):
+            try:
+                st.assume(clause(ex, st, caller, h, {}))
+            except Exception as e:
+                if type(e).__name__ != "Unsupported":
+                    raise              # a hint that does not even type on this path is simply not available
     # coerce arguments to the callee's declared parameter types (obligation: kind matches)
     for p, tag in c.types.items():
         if p in fv and isinstance(fv[p], V) and tag in S.NATIVE and fv[p].ty == "py":
